@@ -19,7 +19,7 @@ SIDE_NOTE = "stateful stream: each case starts with a reset op; non-trivial = th
 PIPE_RULE = "abstract cases (service configuration, Via/Route/Record-Route stacks, dialogs, TCP connections) rendered to bytes and pushed through the real pipeline inside the real loop goroutine; predictions derived from the abstract case are checked on the implementation; non-trivial = message decoded and processed; distinct by op line"
 
 PROPS = {
-    "C05": {"lean": ["C05"], "expected": ["K05"], "streams": [{"name": "rr", "gen": "rr"}],
+    "C05": {"lean": ["C05"], "expected": ["K05"], "also": ["C19"], "streams": [{"name": "rr", "gen": "rr"}, {"name": "res", "gen": "res"}],
             "rule": "exhaustive add/remove/dispatch sequences (canonical address order) plus seeded random histories on the real RoundRobinBackend; " + SIDE_NOTE},
     "C18": {"lean": ["C18"], "expected": ["Routes", "K18"], "streams": [{"name": "route", "gen": "route"}],
             "rule": "exhaustive route tables over the pattern universe x all hosts, each lookup repeated 50 times, plus random larger tables; " + SIDE_NOTE},
@@ -41,7 +41,7 @@ PROPS = {
             "rule": PIPE_RULE},
     "C06": {"lean": ["C06"], "expected": ["K06", "Globals"], "streams": [{"name": "pipe", "gen": "pipe", "args": {"focus": "requests"}}],
             "rule": PIPE_RULE},
-    "C07": {"lean": ["C07"], "expected": ["Wiring", "Ctors", "K07"], "streams": [{"name": "pipe", "gen": "pipe", "args": {"focus": "requests"}}, {"name": "pipe2", "gen": "pipe", "args": {"focus": "responses"}}, {"name": "wire", "gen": "wire", "args": {"focus": "c07"}}], "also": ["C12", "C02"],
+    "C07": {"lean": ["C07"], "expected": ["Wiring", "Ctors", "K07"], "streams": [{"name": "pipe", "gen": "pipe", "args": {"focus": "requests"}}, {"name": "pipe2", "gen": "pipe", "args": {"focus": "responses"}}, {"name": "wire", "gen": "wire", "args": {"focus": "c07"}}, {"name": "udpwire", "gen": "frame", "args": {"focus": "udpwire"}}], "also": ["C12", "C02"],
             "rule": PIPE_RULE},
     "C12": {"lean": ["C12"], "expected": ["K12"], "streams": [{"name": "pipe", "gen": "pipe", "args": {"focus": "tcp"}}],
             "rule": PIPE_RULE},
@@ -57,7 +57,7 @@ PROPS = {
             "rule": "every datagram parsed through the real UDP parse loop in a clean and in a dirty 64 KiB buffer (cut / over- / under-declared datagrams), plus exhaustive and random Alloc/Free histories on the real pool; non-trivial = datagram accepted; distinct by op line"},
     "C08": {"lean": ["C08"], "expected": ["Inventory"], "streams": [{"name": "hostile", "gen": "hostile"}],
             "rule": "mutations of valid requests/responses and hostile field values (absurd Content-Length, bracket-only hosts, thousands of headers/parameters, truncations, garbage): accept/reject compared with the model, robustness oracle (no panic, bounded allocation) on parse and on the whole pipeline, liveness probes after hostile input; non-trivial = input accepted by the parser; distinct by op line"},
-    "C09": {"lean": ["C09"], "expected": ["Wiring", "Locks"], "streams": [{"name": "race", "gen": "race", "race": True, "timeout": 900}],
+    "C09": {"lean": ["C09"], "expected": ["Wiring", "Locks"], "also": ["C10"], "streams": [{"name": "race", "gen": "race", "race": True, "timeout": 900}, {"name": "udpwire", "gen": "frame", "args": {"focus": "udpwire"}}],
             "rule": "stress runs of several real Proxy loops of one service fed concurrently with membership changes, pool, transport table and resolver traffic under the Go race detector, GOMAXPROCS varied; every request must reach exactly one backend; non-trivial = run under load (>= 100 requests); distinct by (listeners, seed, GOMAXPROCS)"},
     "C14": {
         "lean": ["C14"], "expected": ["Tables", "Globals"],
